@@ -217,7 +217,8 @@ fn recomp_case(rt: &tokio::runtime::Runtime, dir: &Path, case: &Value, n: usize)
 		m
 	};
 	let mk_cp = || TilesConverterParameters::new(tcomp, None, force, false, false);
-	let mut ev = json!({"ev":"recomp","id":n,"tiles":src.tiles_json(),"src_tc":case["src_tc"],"target":target,"force":force as u8,"fmt":fmt});
+	let mut ev = json!({"ev":"recomp","id":n,"tiles":src.tiles_json(),"src_tc":case["src_tc"],"target":target,"force":force as u8,"fmt":fmt,
+		"may_refuse":case.get("may_refuse").and_then(|m| m.as_u64()).unwrap_or(0)});
 	let reader = match catch(|| TilesConvertReader::new_from_reader(Box::new(mk_mem()), mk_cp())) {
 		Ok(Ok(r)) => r,
 		_ => {
@@ -305,7 +306,8 @@ fn recomp_case(rt: &tokio::runtime::Runtime, dir: &Path, case: &Value, n: usize)
 	if matches!(r, Ok(Ok(()))) {
 		ev["file"] = recomp_file(fmt, &path, &raw, meta_name);
 	} else {
-		ev["file"] = json!({"skip":0,"ok":0,"tc":"","tiles":[],"meta_name":"","err":format!("{r:?}").chars().take(200).collect::<String>()});
+		ev["file"] = json!({"skip":0,"ok":0,"tc":"","tiles":[],"meta_name":"","err":format!("{r:?}").chars().take(200).collect::<String>(),
+			"refused": matches!(r, Ok(Err(_))) as u8});
 	}
 	remove_path(&path);
 	ev
@@ -477,6 +479,7 @@ fn cli_recomp_case(bin: &str, dir: &Path, case: &Value, n: usize, override_input
 	}
 	let (exit, err) = run_cli(bin, &args);
 	let mut ev = json!({"ev":"clirecomp","id":n,"tiles":src.tiles_json(),"src_tc":src_tc,"target":target,"force":force as u8,"fmt":fmt,"override":override_input as u8,"exit":exit,
+		"may_refuse":case.get("may_refuse").and_then(|m| m.as_u64()).unwrap_or(0),
 		"args":args[1..args.len()-2],"err":if exit == 0 { String::new() } else { err }});
 	ev["file"] = if path.exists() { recomp_file(fmt, &path, &raw, meta_name) } else { json!({"skip":0,"ok":0,"tc":"","tiles":[],"meta_name":"","err":"no output"}) };
 	remove_path(&path);
